@@ -99,6 +99,12 @@ mod verif_kani_supportedcone {
         (merged, skipped_in_run)
     }
 
+    // Bounds (all measured; cap 10 min / 8 GB per harness).  Every list of length 1 and 2 over the four kinds with symbolic
+    // dimensions 0..=3.  Three symbolic cones exhaust 28 GB whatever the unwinding (each `if nvars != 0` / collapsible-or-not
+    // decision leaves the Peekable state and the length of `newcones` symbolic; every later `push` and the final
+    // `shrink_to_fit` then explore their reallocation paths).  Length 3 and 4 are therefore covered only for lists with a
+    // CONCRETE prefix (its control flow folds) followed by one cone of any kind and dimension; the prefix
+    // [NN(1), Zero(0), SOC(1)] + any passes but needs 11 min / 41 GB and [any, NN(2), SOC(1)] more than 16 GB: not included.
     #[kani::proof]
     #[kani::unwind(2)]
     fn new_collapsed_matches_spec_len1() { check_on([any_cone()]); }
@@ -120,11 +126,11 @@ mod verif_kani_supportedcone {
     fn new_collapsed_matches_spec_len3_soc_soc1_then_any() { check_on([SecondOrderConeT(3), SecondOrderConeT(1), any_cone()]); }
     #[kani::proof]
     #[kani::unwind(5)]
-    fn new_collapsed_matches_spec_len4_nn_empty_soc1_then_any() { check_on([NonnegativeConeT(1), ZeroConeT(0), SecondOrderConeT(1), any_cone()]); }
-    #[kani::proof]
-    #[kani::unwind(5)]
     fn new_collapsed_matches_spec_len4_zero_soc1_empty_then_any() { check_on([ZeroConeT(2), SecondOrderConeT(1), NonnegativeConeT(0), any_cone()]); }
     #[kani::proof]
-    #[kani::unwind(4)]
-    fn new_collapsed_dev_any_then_run2() { check_on([any_cone(), NonnegativeConeT(2), SecondOrderConeT(1)]); }
+    #[kani::unwind(5)]
+    fn new_collapsed_matches_spec_len4_exp_run2_then_any() { check_on([ExponentialConeT(), NonnegativeConeT(2), SecondOrderConeT(1), any_cone()]); }
+    #[kani::proof]
+    #[kani::unwind(5)]
+    fn new_collapsed_matches_spec_len4_soc_zero_nn_then_any() { check_on([SecondOrderConeT(2), ZeroConeT(1), NonnegativeConeT(1), any_cone()]); }
 }
